@@ -38,6 +38,9 @@ def is_const_addr(addr):
     return addr is not None and all(s.off is not None for s in addr.segs)
 
 
+JOINED = ("v", "joined")     # definitely written, value differs between paths
+
+
 class State:
     __slots__ = ("facts", "must", "may")
 
@@ -59,7 +62,11 @@ def join(a, b):
     if b is None:
         return a.copy()
     facts = a.facts & b.facts
-    must = {k: v for k, v in a.must.items() if k in b.must and b.must[k][1] == v[1]}
+    must = {}
+    for k, v in a.must.items():
+        if k in b.must:
+            # written on both paths: keep the value when it agrees, else "some value" (still defined)
+            must[k] = v if b.must[k][1] == v[1] else (v[0], JOINED)
     may = dict(a.may)
     may.update(b.may)
     return State(facts, must, may)
@@ -78,7 +85,7 @@ class ClassSum:
         if self.must is None:
             self.must = dict(must)
         else:
-            self.must = {k: v for k, v in self.must.items() if k in must and must[k][1] == v[1]}
+            self.must = {k: (v if must[k][1] == v[1] else (v[0], JOINED)) for k, v in self.must.items() if k in must}
         for k, v in may.items():
             self.may.setdefault(k, v)
 
@@ -662,15 +669,17 @@ class FuncAnalysis:
                 for key, (loc, t) in (cs.must or {}).items():
                     a2 = xl_addr(loc.addr)
                     t2 = xl_term(t, s)
-                    if a2 is None or t2 is None or not is_const_addr(a2):
+                    if a2 is None or not is_const_addr(a2):
                         continue
+                    if t2 is None:
+                        t2 = ("v", "callee")      # definitely written by the callee, value not nameable here
                     g[(self.reg(a2), loc.size)] = (Loc(a2, loc.size), t2)
                 fs = set()
                 for fct in (cs.guards or ()):
                     x, y = xl_term(fct[1], s), xl_term(fct[2], s)
                     if x is not None and y is not None:
                         fs.add((fct[0], x, y))
-                g_all = g if g_all is None else {k: v for k, v in g_all.items() if k in g and g[k][1] == v[1]}
+                g_all = g if g_all is None else {k: (v if g[k][1] == v[1] else (v[0], JOINED)) for k, v in g_all.items() if k in g}
                 f_all = fs if f_all is None else (f_all & fs)
             gens[cl] = g_all or {}
             facts[cl] = f_all or set()
@@ -709,7 +718,7 @@ class FuncAnalysis:
         if gens:
             common = None
             for cl, g in gens.items():
-                common = dict(g) if common is None else {k: v for k, v in common.items() if k in g and g[k][1] == v[1]}
+                common = dict(g) if common is None else {k: (v if g[k][1] == v[1] else (v[0], JOINED)) for k, v in common.items() if k in g}
             for k, v in (common or {}).items():
                 st.must[k] = v
             cf = None
